@@ -205,7 +205,6 @@ mod replacer;
 mod vm;
 
 use crate::analyze::analyze;
-use crate::compile::compile;
 use crate::parse::{ExprTree, NamedGroups, Parser};
 use crate::vm::{Prog, OPTION_SKIPPED_EMPTY_MATCH};
 
@@ -692,7 +691,7 @@ impl Regex {
             });
         }
 
-        let prog = compile(&info)?;
+        let prog = compile::compile_with_options(&info, &options)?;
         Ok(Regex {
             inner: RegexImpl::Fancy {
                 prog,
